@@ -139,6 +139,7 @@ macro_rules! timer_real {
   ($s:expr, $cx:expr, $B:ty) => {{
     let r: $B = match $s {
       Src::Timer(v, d) => timer(v.clone(), ms(*d), $cx.sched.clone()).on_error_map(inf).box_it(),
+      Src::TimerUs(v, d) => timer(v.clone(), Duration::from_micros(*d), $cx.sched.clone()).on_error_map(inf).box_it(),
       Src::TimerAt(v, at) => {
         timer_at(v.clone(), instant_at($cx.base, *at), $cx.sched.clone()).on_error_map(inf).box_it()
       }
@@ -277,7 +278,7 @@ macro_rules! gen_builder {
               .on_error_map(inf)
               .box_it()
           }
-          Src::Timer(..) | Src::TimerAt(..) => $timer!(s, cx, $B),
+          Src::Timer(..) | Src::TimerUs(..) | Src::TimerAt(..) => $timer!(s, cx, $B),
           Src::Future(id, s) => {
             from_future(ItemFuture(SStream::new(*id, s.clone(), &log)), cx.sched.clone())
               .on_error_map(inf)
